@@ -6,6 +6,7 @@ from .line import Line
 from ..utils.solver import solve
 from ..utils.vector import Vector, x_unit_vector, y_unit_vector, z_unit_vector
 from ..utils.constant import *
+import copy
 
 
 class Plane(GeoBody):
@@ -153,7 +154,9 @@ class Plane(GeoBody):
         """Return the plane that you get when you move self by vector v, self is also moved"""
         if isinstance(v, Vector):
             self.p.move(v)
-            return Plane(self.p, self.n)
+            # hand out a copy so that the returned plane does not share
+            # its point with self (moving one must not move the other)
+            return Plane(copy.deepcopy(self.p), self.n)
         else:
             raise NotImplementedError(
                 "The second parameter for move function must be Vector"
